@@ -1555,6 +1555,9 @@ class Engine:
                         s1.assume(z3.Not(es2.when(c0)))
                 for item in con.ensures(c1):
                     s1.assume(item[1])
+                if getattr(con, 'ghost_updates', None) is not None:
+                    for gname, gval in con.ghost_updates(c0).items():
+                        s1.g[gname] = gval
                 if not self.feasible(s1):
                     continue
                 s1.trace.append('c%s:ret' % (line,))
@@ -1573,6 +1576,9 @@ class Engine:
                 c1 = Ctx(self, pre, s1, cargs, exc=exc, entry=pre)
                 for item in es.ensures(c1):
                     s1.assume(item[1])
+                if getattr(con, 'ghost_updates', None) is not None:
+                    for gname, gval in con.ghost_updates(c0).items():
+                        s1.g[gname] = gval
                 if not self.feasible(s1):
                     continue
                 s1.trace.append('c%s:%s' % (line, es.cls))
@@ -1673,7 +1679,13 @@ class Engine:
         # function even when no exceptional path exists (so that a later undeclared exception is a
         # regression of a named obligation)
         self.oblige(entry, z3.BoolVal(True), 'exc', 'declared-exception')
+        gu = getattr(con, 'ghost_updates', None)
         for (s1, ctrl, v) in outcomes:
+            if gu is not None and ctrl in ('ok', 'ret', 'exc'):
+                # marker ghosts of this function ("the call happened"): set by definition at
+                # every exit, as its callers assume
+                for gname, gval in gu(c0).items():
+                    s1.g[gname] = gval
             if exit_hook is not None and ctrl in ('ok', 'ret', 'exc'):
                 # obligations over the locals at the exit (e.g. objects created by this call)
                 for (label, f, props) in exit_hook(self, s1, ctrl, v):
